@@ -415,6 +415,9 @@ def distribute(ctx) -> None:
             if isinstance(r, ast.Compare) and len(r.ops) == 1 and isinstance(r.ops[0], (ast.Eq, ast.Is)) and pol and {getattr(r.left, "id", None), getattr(r.comparators[0], "id", None)} == {"source", "destination"}:
                 n_arg = (fv.bind_args(cs) or {}).get("n")
                 good = isinstance(n_arg, ast.Constant) and n_arg.value == 2
+                lab_arg = (fv.bind_args(cs) or {}).get("label")
+                ctx.rep.check(lab_arg is not None and is_name(lab_arg, "label"), rule, f"{f.qualname}/same-labware-label", "the condensed entry carries the operation's label",
+                              f"the condensed entry gets label `{show(lab_arg) if lab_arg is not None else 'the default'}` instead of the operation's label", where=f.where(cs.call))
     ctx.rep.check(good, rule, f"{f.qualname}/same-labware", "source is destination => the two entries are condensed into one",
                   "when source and destination are the same labware, distribute leaves two history entries (transfer condenses them, distribute does not)", where=f.where())
 
